@@ -30,6 +30,12 @@ pub enum WireAct {
     /// a request-type telegram instead of a response
     RequestInstead,
     PowerCycle,
+    /// the slave executes the request, its reply is cut off after this many bytes (at least one,
+    /// at most all but one); a reply of a single byte is lost instead
+    Truncated(u8),
+    /// the slave executes the request, one bit of the frame check byte of its reply is inverted (the
+    /// damage shows only at the end of the telegram); a reply of a single byte is lost instead
+    Damaged(u8),
 }
 
 pub fn gen_wire_act(t: &mut Tape) -> WireAct {
@@ -86,6 +92,20 @@ impl VirtualNode for SlaveBank {
         };
         match &act {
             WireAct::ReplyLost => return vec![],
+            WireAct::Truncated(k) => {
+                if reply.len() < 2 {
+                    return vec![];
+                }
+                let keep = usize::from(*k).clamp(1, reply.len() - 1);
+                reply.truncate(keep);
+            }
+            WireAct::Damaged(k) => {
+                if reply.len() < 6 {
+                    return vec![];
+                }
+                let n = reply.len();
+                reply[n - 2] ^= 1 << (k % 8);
+            }
             WireAct::Replaced(r) => {
                 let ident = self.idents[k];
                 reply = match r {
